@@ -342,7 +342,7 @@ func parseLoadFile88(reader io.Reader, coresize Address) (WarriorData, error) {
 			if err != nil {
 				return WarriorData{}, fmt.Errorf("line %d: error parsing integer: %s", lineNum, err)
 			}
-			if fields[0] != "org" && (val < 0 || val > int64(len(data.Code))) {
+			if val < 0 || (fields[0] != "org" && val > int64(len(data.Code))) {
 				return WarriorData{}, fmt.Errorf("line %d: start address outside warrior code", lineNum)
 			}
 
